@@ -7,65 +7,39 @@ sys.path.insert(0, "/verif/pylib")
 import orch
 
 THRASH = "option tuple without guaranteed progress (restarts on while learned nogoods are deleted above a tiny limit, or nothing is learned): the solve does not terminate within the poll budget"
-SPEC = [
-  # property, id, classes, symptom, what
-  ("C02", "C02-thrash-no-termination", ["opt.thrash"], r"^(budget-exhausted|hang)", THRASH),
-  ("C03", "C03-thrash-no-termination", ["opt.thrash"], r"^(budget-exhausted|hang)", THRASH),
-  ("C07", "C07-thrash-no-termination", ["opt.thrash"], r"^(budget-exhausted|hang)", THRASH),
-  ("C09", "C09-thrash-no-termination", ["opt.thrash"], r"^(budget-exhausted|hang)", THRASH),
-  ("C18", "C18-thrash-no-termination", ["opt.thrash"], r"^(budget-exhausted|hang)", THRASH),
-  ("C01", "C01-implied-cumulative", ["implied.cumulative"], r"^solution-violates-model.*cumulative", "half-reified cumulative (incremental time-table variants): an assignment with the literal true that overloads the resource is reported"),
-  ("C02", "C02-implied-cumulative", ["implied.cumulative"], r"^solution-violates-model.*cumulative", "half-reified cumulative (incremental time-table variants): an assignment with the literal true that overloads the resource is reported"),
-  ("C03", "C03-implied-cumulative", ["implied.cumulative"], r"^non-solution-yielded.*cumulative", "half-reified cumulative (incremental time-table variants): an assignment with the literal true that overloads the resource is reported"),
-  ("C07", "C07-implied-cumulative", ["implied.cumulative"], r"^non-solution-yielded.*cumulative", "half-reified cumulative (incremental time-table variants): an assignment with the literal true that overloads the resource is reported"),
-  ("C09", "C09-implied-cumulative", ["implied.cumulative"], r"^non-solution-yielded.*cumulative", "half-reified cumulative (incremental time-table variants): an assignment with the literal true that overloads the resource is reported"),
-  ("C11", "C11-implied-cumulative", ["implied.cumulative"], r"^non-solution-yielded", "half-reified cumulative (incremental time-table variants): an assignment with the literal true that overloads the resource is reported"),
-  ("C03", "C03-element-repeated-variable", ["element.repeated_var"], r"^(solution-missing|panic)", "element constraint in which a variable occurs more than once: solutions are lost / conflict analysis panics"),
-  ("C09", "C09-element-repeated-variable", ["element.repeated_var"], r"^(solution-missing|panic)", "element constraint in which a variable occurs more than once: solutions are lost / conflict analysis panics"),
+IMPL_CUM = "half-reified cumulative (incremental time-table variants): an assignment with the literal true that overloads the resource is reported"
+MIN = "conflict analysis meets a reason predicate that is not assigned (mostly with clauses over equality / disequality predicates or constraints with a repeated variable; consequence of the nogood propagator propagating on an equality predicate that is not true): the recursive minimiser panics"
+TR = "clause over equality / disequality predicates: conflict analysis asks for the trail entry of a predicate that is not on the trail"
+ELEM = "element constraint in which a variable occurs more than once: solutions are lost / conflict analysis panics"
+LIB = ["C01", "C02", "C03", "C04", "C05", "C06", "C07", "C08", "C09", "C10", "C11", "C16", "C18", "C20"]
+SPEC = []
+for P in ["C02", "C03", "C07", "C09", "C18"]:
+    SPEC.append((P, P + "-thrash-no-termination", ["opt.thrash"], r"^(budget-exhausted|hang)", THRASH))
+for P in ["C01", "C02", "C03", "C04", "C05", "C07", "C09", "C10", "C11", "C18"]:
+    SPEC.append((P, P + "-implied-cumulative", ["implied.cumulative"], r"^(solution-violates-model|non-solution-yielded|stale-or-wrong-solution).*cumulative", IMPL_CUM))
+for P in LIB:
+    SPEC.append((P, P + "-minimiser-unassigned-predicate", [], r"called `Option::unwrap\(\)` on a `None` value @ .*recursive_minimiser", MIN))
+    SPEC.append((P, P + "-predicate-clause-trail-entry", [], r"Expected to be able to get trail entry of", TR))
+for P in ["C02", "C03", "C07", "C09"]:
+    SPEC.append((P, P + "-element-repeated-variable", ["element.repeated_var"], r"^(solution-missing|panic|unsat-but-satisfiable|learned-nogood-not-implied)", ELEM))
+SPEC += [
   ("C09", "C09-implied-element-minimiser-panic", ["implied.element"], r"^panic: called `Option::unwrap\(\)` on a `None` value @ .*recursive_minimiser", "half-reified element: the recursive minimiser panics on a reason predicate that is not assigned"),
   ("C05", "C05-no-learning-assumptions", ["opt.no_learning"], r".", "the no-learning resolver flips assumptions like decisions: panics / wrong cores under assumptions"),
   ("C05", "C05-assumption-false-at-root", ["assume.model_false"], r"^(core-not-implied-by-assumptions|core-panic)", "an assumption that is false in every solution of the model: the core contains its negation / extract_core panics"),
-  ("C08", "C08-extended-regime", ["cumulative.extended"], r".", "cumulative outside the canonical regime (zero duration/usage, usage > capacity, negative or scaled start times, repeated variables): wrong solution sets, unsound explanations, panics, a hang"),
-  ("C17", "C17-cumulative-extended-regime", ["cumulative.extended"], r"^(reason-|conflict-reason-|analysis-reason-)", "cumulative outside the canonical regime: explanations that do not follow from the constraint / are not true"),
-  ("C10", "C10-core-panic-after-optimise", ["history.optimise", "history.assumptions"], r"^panic: .*extract_core", "extract_core panics in a history that contains an earlier optimisation (objective facts at the root without a reason)"),
-  ("C06", "C06-unsat-at-clause-without-empty-nogood", ["proof.post_err.clause"], r"^unsat-without-empty-nogood", "infeasibility detected while adding a clause: the proof concludes UNSAT without the empty nogood"),
-  ("C06", "C06-scaffold-sat-unsat-cuts-missing", ["proof.scaffold", "proof.sat-unsat"], r"^nogood-not-implied", "scaffold proof of a linear SAT-UNSAT optimisation does not contain the objective cuts its nogoods depend on"),
-  ("C16", "C16-extreme-magnitudes", ["mag.regime.extreme"], r".", "constants at the 32-bit limits themselves (|value| >= 2^30 combined with offsets / right-hand sides of the same magnitude): wrapped intermediate results in views, linear-not-equal, maximum/minimum, absolute, division"),
-  ("C16", "C16-repeated-variable-minimiser-panic", ["linear.repeated_var"], r"recursive_minimiser", "linear (dis)equality in which a variable occurs twice: the recursive minimiser panics on a reason predicate that is not assigned"),
-  ("C01", "C01-minimiser-unassigned-predicate", [], r"called `Option::unwrap\(\)` on a `None` value @ .*recursive_minimiser", 'conflict analysis meets a reason predicate that is not assigned (mostly with clauses over equality / disequality predicates or constraints with a repeated variable; consequence of the nogood propagator propagating on an equality predicate that is not true): the recursive minimiser panics'),
-  ("C01", "C01-predicate-clause-trail-entry", [], r"Expected to be able to get trail entry of", 'clause over equality / disequality predicates: conflict analysis asks for the trail entry of a predicate that is not on the trail'),
-  ("C02", "C02-minimiser-unassigned-predicate", [], r"called `Option::unwrap\(\)` on a `None` value @ .*recursive_minimiser", 'conflict analysis meets a reason predicate that is not assigned (mostly with clauses over equality / disequality predicates or constraints with a repeated variable; consequence of the nogood propagator propagating on an equality predicate that is not true): the recursive minimiser panics'),
-  ("C02", "C02-predicate-clause-trail-entry", [], r"Expected to be able to get trail entry of", 'clause over equality / disequality predicates: conflict analysis asks for the trail entry of a predicate that is not on the trail'),
-  ("C03", "C03-minimiser-unassigned-predicate", [], r"called `Option::unwrap\(\)` on a `None` value @ .*recursive_minimiser", 'conflict analysis meets a reason predicate that is not assigned (mostly with clauses over equality / disequality predicates or constraints with a repeated variable; consequence of the nogood propagator propagating on an equality predicate that is not true): the recursive minimiser panics'),
-  ("C03", "C03-predicate-clause-trail-entry", [], r"Expected to be able to get trail entry of", 'clause over equality / disequality predicates: conflict analysis asks for the trail entry of a predicate that is not on the trail'),
-  ("C04", "C04-minimiser-unassigned-predicate", [], r"called `Option::unwrap\(\)` on a `None` value @ .*recursive_minimiser", 'conflict analysis meets a reason predicate that is not assigned (mostly with clauses over equality / disequality predicates or constraints with a repeated variable; consequence of the nogood propagator propagating on an equality predicate that is not true): the recursive minimiser panics'),
-  ("C04", "C04-predicate-clause-trail-entry", [], r"Expected to be able to get trail entry of", 'clause over equality / disequality predicates: conflict analysis asks for the trail entry of a predicate that is not on the trail'),
-  ("C05", "C05-minimiser-unassigned-predicate", [], r"called `Option::unwrap\(\)` on a `None` value @ .*recursive_minimiser", 'conflict analysis meets a reason predicate that is not assigned (mostly with clauses over equality / disequality predicates or constraints with a repeated variable; consequence of the nogood propagator propagating on an equality predicate that is not true): the recursive minimiser panics'),
-  ("C05", "C05-predicate-clause-trail-entry", [], r"Expected to be able to get trail entry of", 'clause over equality / disequality predicates: conflict analysis asks for the trail entry of a predicate that is not on the trail'),
-  ("C07", "C07-minimiser-unassigned-predicate", [], r"called `Option::unwrap\(\)` on a `None` value @ .*recursive_minimiser", 'conflict analysis meets a reason predicate that is not assigned (mostly with clauses over equality / disequality predicates or constraints with a repeated variable; consequence of the nogood propagator propagating on an equality predicate that is not true): the recursive minimiser panics'),
-  ("C07", "C07-predicate-clause-trail-entry", [], r"Expected to be able to get trail entry of", 'clause over equality / disequality predicates: conflict analysis asks for the trail entry of a predicate that is not on the trail'),
-  ("C09", "C09-minimiser-unassigned-predicate", [], r"called `Option::unwrap\(\)` on a `None` value @ .*recursive_minimiser", 'conflict analysis meets a reason predicate that is not assigned (mostly with clauses over equality / disequality predicates or constraints with a repeated variable; consequence of the nogood propagator propagating on an equality predicate that is not true): the recursive minimiser panics'),
-  ("C09", "C09-predicate-clause-trail-entry", [], r"Expected to be able to get trail entry of", 'clause over equality / disequality predicates: conflict analysis asks for the trail entry of a predicate that is not on the trail'),
-  ("C10", "C10-minimiser-unassigned-predicate", [], r"called `Option::unwrap\(\)` on a `None` value @ .*recursive_minimiser", 'conflict analysis meets a reason predicate that is not assigned (mostly with clauses over equality / disequality predicates or constraints with a repeated variable; consequence of the nogood propagator propagating on an equality predicate that is not true): the recursive minimiser panics'),
-  ("C10", "C10-predicate-clause-trail-entry", [], r"Expected to be able to get trail entry of", 'clause over equality / disequality predicates: conflict analysis asks for the trail entry of a predicate that is not on the trail'),
-  ("C11", "C11-minimiser-unassigned-predicate", [], r"called `Option::unwrap\(\)` on a `None` value @ .*recursive_minimiser", 'conflict analysis meets a reason predicate that is not assigned (mostly with clauses over equality / disequality predicates or constraints with a repeated variable; consequence of the nogood propagator propagating on an equality predicate that is not true): the recursive minimiser panics'),
-  ("C11", "C11-predicate-clause-trail-entry", [], r"Expected to be able to get trail entry of", 'clause over equality / disequality predicates: conflict analysis asks for the trail entry of a predicate that is not on the trail'),
-  ("C18", "C18-minimiser-unassigned-predicate", [], r"called `Option::unwrap\(\)` on a `None` value @ .*recursive_minimiser", 'conflict analysis meets a reason predicate that is not assigned (mostly with clauses over equality / disequality predicates or constraints with a repeated variable; consequence of the nogood propagator propagating on an equality predicate that is not true): the recursive minimiser panics'),
-  ("C18", "C18-predicate-clause-trail-entry", [], r"Expected to be able to get trail entry of", 'clause over equality / disequality predicates: conflict analysis asks for the trail entry of a predicate that is not on the trail'),
-  ("C20", "C20-minimiser-unassigned-predicate", [], r"called `Option::unwrap\(\)` on a `None` value @ .*recursive_minimiser", 'conflict analysis meets a reason predicate that is not assigned (mostly with clauses over equality / disequality predicates or constraints with a repeated variable; consequence of the nogood propagator propagating on an equality predicate that is not true): the recursive minimiser panics'),
-  ("C20", "C20-predicate-clause-trail-entry", [], r"Expected to be able to get trail entry of", 'clause over equality / disequality predicates: conflict analysis asks for the trail entry of a predicate that is not on the trail'),
   ("C05", "C05-core-panic-resolver", [], r"^core-panic.*resolution_resolver", "extract_core panics in the resolver (unwrap on None in the all-decision resolution)"),
   ("C10", "C10-core-panic-resolver", ["history.assumptions"], r"extract_core.*resolution_resolver", "extract_core panics in the resolver (unwrap on None in the all-decision resolution)"),
+  ("C10", "C10-core-panic-after-optimise", ["history.optimise", "history.assumptions"], r"^panic: .*extract_core", "extract_core panics in a history that contains an earlier optimisation (objective facts at the root without a reason)"),
+  ("C08", "C08-extended-regime", ["cumulative.extended"], r".", "cumulative outside the canonical regime (zero duration/usage, usage > capacity, negative or scaled start times, repeated variables): wrong solution sets, unsound explanations, panics, a hang"),
+  ("C17", "C17-cumulative-extended-regime", ["cumulative.extended"], r"^(reason-|conflict-reason-|analysis-reason-|hang)", "cumulative outside the canonical regime: explanations that do not follow from the constraint / are not true; endless loop with zero-duration tasks"),
   ("C17", "C17-nogood-reason-not-true", [], r"^analysis-reason-not-true.*NogoodPropagator", "nogood containing an equality predicate: the nogood propagator propagates although that predicate is not true, so its reason does not hold (mostly with clauses over equality predicates or repeated variables)"),
+  ("C06", "C06-unsat-at-clause-without-empty-nogood", ["proof.post_err.clause"], r"^unsat-without-empty-nogood", "infeasibility detected while adding a clause: the proof concludes UNSAT without the empty nogood"),
+  ("C06", "C06-scaffold-sat-unsat-cuts-missing", ["proof.scaffold", "proof.sat-unsat"], r"^nogood-not-implied", "scaffold proof of a linear SAT-UNSAT optimisation does not contain the objective cuts its nogoods depend on"),
   ("C06", "C06-reified-literal-trivial-predicate", ["kind.literal_definition"], r"(is not a valid reification predicate|assertion failed: rhs == 0 \|\| rhs == 1)", "literal created with new_literal_for_predicate: proof logging panics on a trivially true bound of the literal (e.g. [b <= 1]) in a reason"),
   ("C06", "C06-predicate-clause-root-premise", ["kind.predicate_clause"], r"assertion failed: self.assignments.is_predicate_satisfied\(premise\)", "clause over equality predicates: logging a root propagation asserts on a reason predicate that is not true"),
   ("C06", "C06-finalizer-empty-reason", [], r"assertion failed: !reason.is_empty\(\)", "proof finalisation asserts on an empty reason"),
-  ("C13", "C13-element-repeated-variable", ["fzn.element_repeated_var"], r"^(solution-set-mismatch|printed-non-solution|no-verdict|unsat-but-satisfiable)", "element constraint in which a variable occurs more than once: solutions are lost / conflict analysis panics"),
-  ("C06", "C06-minimiser-unassigned-predicate", [], r"called `Option::unwrap\(\)` on a `None` value @ .*recursive_minimiser", 'conflict analysis meets a reason predicate that is not assigned (mostly with clauses over equality / disequality predicates or constraints with a repeated variable; consequence of the nogood propagator propagating on an equality predicate that is not true): the recursive minimiser panics'),
-  ("C06", "C06-predicate-clause-trail-entry", [], r"Expected to be able to get trail entry of", 'clause over equality / disequality predicates: conflict analysis asks for the trail entry of a predicate that is not on the trail'),
-  ("C08", "C08-minimiser-unassigned-predicate", [], r"called `Option::unwrap\(\)` on a `None` value @ .*recursive_minimiser", 'conflict analysis meets a reason predicate that is not assigned (mostly with clauses over equality / disequality predicates or constraints with a repeated variable; consequence of the nogood propagator propagating on an equality predicate that is not true): the recursive minimiser panics'),
-  ("C08", "C08-predicate-clause-trail-entry", [], r"Expected to be able to get trail entry of", 'clause over equality / disequality predicates: conflict analysis asks for the trail entry of a predicate that is not on the trail'),
+  ("C13", "C13-element-repeated-variable", ["fzn.element_repeated_var"], r"^(solution-set-mismatch|printed-non-solution|no-verdict|unsat-but-satisfiable)", ELEM),
   ("C15", "C15-cardinality-network-duplicate-soft", ["enc.cardinality-network", "wcnf.duplicate_soft"], r"Sorting network encoding is only supported on unweighted", "duplicate unit soft clauses of a uniform-weight instance are merged into one weighted literal and the cardinality-network encoding panics"),
+  ("C16", "C16-extreme-magnitudes", ["mag.regime.extreme"], r".", "constants at the 32-bit limits themselves (|value| >= 2^30 combined with offsets / right-hand sides of the same magnitude): wrapped intermediate results in views, linear-not-equal, maximum/minimum, absolute, division"),
 ]
 
 def main():
@@ -103,6 +77,7 @@ def main():
         if donor:
             w = dict(donor["witness"])
             w["symptom"] = donor["symptom"]
+            w["classes"] = donor["classes"]
             w["borrowed_from"] = donor["id"]
             e["witness"] = w
         else:
